@@ -27,11 +27,10 @@ def check(ctx):
 
 
 MUTANTS = [
+    ("group-without-partner-built", M, "                    for dep in body.simultaneous_list\n                ):\n                    continue\n", "                    for dep in body.simultaneous_list\n                ):\n                    pass\n"),
+    ("partner-test-members-only", M, "                    for body in method_map.ready_for_transaction(transaction)\n                    for dep in body.simultaneous_list\n", "                    for body in [transaction]\n                    for dep in body.simultaneous_list\n"),
+    ("partner-test-polarity", M, "not any(group & frozenset(method_map.transactions_for(alt)) for alt in partners(body, dep))", "any(group & frozenset(method_map.transactions_for(alt)) for alt in partners(body, dep))"),
     ("ungrouped-simultaneous-transactions-dropped", M, "        for transaction in all_simultaneous:\n            method = Method(", "        for transaction in set[TBody]().union(*final_simultaneous):\n            method = Method("),
-    ("group-without-enclosing-built", M, "                    if dep in body.simultaneous_list\n                ):\n                    continue\n", "                    if dep in body.simultaneous_list\n                ):\n                    pass\n"),
-    ("enclosing-test-any-dependency", M, "                    if dep in body.simultaneous_list\n", ""),
-    ("enclosing-test-members-only", M, "                    for body in method_map.ready_for_transaction(transaction)\n                    for dep in ready_dependencies[body]\n                    if dep in body.simultaneous_list\n", "                    for dep in ready_dependencies[transaction]\n                    if dep in transaction.simultaneous_list\n"),
-    ("enclosing-test-polarity", M, "not group & frozenset(method_map.transactions_for(dep))", "group & frozenset(method_map.transactions_for(dep))"),
     ("method-run-all-callers", M, "m.d.comb += method.run.eq(granted.any())", "m.d.comb += method.run.eq(granted.all())"),
     ("method-run-ignores-enable", M, "transaction.run & Cat(call.enable for call in method_map.info_by_call[(transaction, method)]).any()", "transaction.run"),
     ("method-run-wrong-key", M, "Cat(call.enable for call in method_map.info_by_call[(transaction, method)]).any()\n                for transaction in transactions", "Cat(call.enable for call in method_map.info_by_call[(transactions[0], method)]).any()\n                for transaction in transactions"),
